@@ -403,7 +403,7 @@ fn cases(t: Tier) -> BoxedStrategy<Case> {
 }
 
 fn subs() -> Vec<Sub> {
-    vec![gen_sub("hermes_maps", cases, |t| t.pick(12_000, 300_000), check)]
+    vec![gen_sub("hermes_maps", cases, |t| t.pick(80_000, 300_000), check)]
 }
 
 pub const DEF: PropertyDef = PropertyDef {
